@@ -1137,6 +1137,12 @@ class Mon:
 
 def judge_case(case, mon):
     ob = mon.observed
+    if case["kind"] == "c":
+        try:
+            build_c_objects(case)       # compiled once; a compiler failure is C29's business, not the linker's
+        except BaseException as e:
+            mon.disc("compile-failed-%s" % type(e).__name__)
+            return
     (su, plain), (sr, relaxed) = link_both(case)
     if su != "ok":
         mon.disc("unrelaxed-link-raised-%s" % type(plain).__name__)
